@@ -1,0 +1,62 @@
+//! Seams for the out-of-tree deterministic-simulation harness. Compiled only with the
+//! `verif-hooks` cargo feature; with the feature off this module does not exist and no call site
+//! is compiled.
+//!
+//! * clock: `Datastore::system_time` passes the sampled wall-clock time through [`now`], which
+//!   returns the thread-local simulated time if one is installed.
+//! * HTTP: `RetryStream::poll_new_request` hands the built request to the thread-local responder
+//!   (if one is installed) instead of `reqwest::Client::execute`.
+#![allow(missing_docs, clippy::missing_panics_doc)]
+
+use chrono::{DateTime, Utc};
+use std::cell::RefCell;
+
+thread_local! {
+    static SIM_NOW: RefCell<Option<DateTime<Utc>>> = const { RefCell::new(None) };
+}
+
+/// Install (or with `None`, remove) the simulated absolute time for the current thread.
+pub fn set_now(t: Option<DateTime<Utc>>) {
+    SIM_NOW.with(|c| *c.borrow_mut() = t);
+}
+
+/// The simulated time of the current thread, if any.
+pub fn sim_now() -> Option<DateTime<Utc>> {
+    SIM_NOW.with(|c| *c.borrow())
+}
+
+/// Called by `Datastore::system_time` with the sampled wall-clock time.
+pub fn now(real: DateTime<Utc>) -> DateTime<Utc> {
+    sim_now().unwrap_or(real)
+}
+
+#[cfg(feature = "http")]
+mod http_hook {
+    use futures_core::future::BoxFuture;
+    use std::cell::RefCell;
+    use std::sync::Arc;
+
+    /// A scripted server: receives the request tough built, returns what `Client::execute` would.
+    pub type Responder = Arc<
+        dyn Fn(reqwest::Request) -> BoxFuture<'static, reqwest::Result<reqwest::Response>>
+            + Send
+            + Sync,
+    >;
+
+    thread_local! {
+        static RESPONDER: RefCell<Option<Responder>> = const { RefCell::new(None) };
+    }
+
+    /// Install (or remove) the responder for the current thread.
+    pub fn set_http_responder(r: Option<Responder>) {
+        RESPONDER.with(|c| *c.borrow_mut() = r);
+    }
+
+    /// The responder of the current thread, if any.
+    pub fn http_responder() -> Option<Responder> {
+        RESPONDER.with(|c| c.borrow().clone())
+    }
+}
+
+#[cfg(feature = "http")]
+pub use http_hook::{http_responder, set_http_responder, Responder};
